@@ -1121,6 +1121,11 @@ def _inline_helpers(tree, modname, ref, log):
         hb = _simple_helper(hf)
         if hb is None:
             continue
+        # a decorator other than staticmethod / classmethod changes what a
+        # call does (memoisation, properties, registration): never inline
+        if any(not (isinstance(d, ast.Name) and d.id in (
+                'staticmethod', 'classmethod')) for d in hf.decorator_list):
+            continue
         encl = enclosing.get(id(hf))
         is_method = cls is not None
         static = any(isinstance(d, ast.Name) and d.id in (
